@@ -12,7 +12,7 @@ Qed.
 (* ------------------------------------------------------------------ the general round trip *)
 Theorem roundtrip_general_l : forall tbl e rest,
   table_total tbl = true -> wf e = true -> folb tbl 0 rest = true ->
-  safeb false (pr tbl 0 e ++ rest) = true ->
+  safeb (pr tbl 0 e ++ rest) = true ->
   exists fuel, p_assign tbl fuel (pr tbl 0 e ++ rest) = Ok (strip e, rest).
 Proof.
   intros tbl e rest Ht Hw Hf Hs.
@@ -24,7 +24,7 @@ Qed.
    error.  (The driver doubles the fuel until the answer is not "out of fuel".) *)
 Theorem roundtrip_any_fuel_l : forall tbl e rest,
   table_total tbl = true -> wf e = true -> folb tbl 0 rest = true ->
-  safeb false (pr tbl 0 e ++ rest) = true ->
+  safeb (pr tbl 0 e ++ rest) = true ->
   forall g, p_assign tbl g (pr tbl 0 e ++ rest) = Ok (strip e, rest) \/
             p_assign tbl g (pr tbl 0 e ++ rest) = Fuel.
 Proof.
@@ -38,7 +38,7 @@ Qed.
 
 Theorem roundtrip_parse_l : forall tbl e rest,
   table_total tbl = true -> wf e = true -> folb tbl 0 rest = true ->
-  safeb false (pr tbl 0 e ++ rest) = true ->
+  safeb (pr tbl 0 e ++ rest) = true ->
   parse tbl (pr tbl 0 e ++ rest) = Ok (strip e, rest) \/ parse tbl (pr tbl 0 e ++ rest) = Fuel.
 Proof. intros. unfold parse. apply roundtrip_any_fuel_l; assumption. Qed.
 
@@ -67,7 +67,7 @@ Qed.
 
 Theorem roundtrip_min_l : forall tbl e rest,
   table_total tbl = true -> wf e = true -> nopar e = true -> folb tbl 0 rest = true ->
-  safeb false (pr tbl 0 e ++ rest) = true ->
+  safeb (pr tbl 0 e ++ rest) = true ->
   exists fuel, p_assign tbl fuel (pr tbl 0 e ++ rest) = Ok (e, rest).
 Proof.
   intros tbl e rest Ht Hw Hn Hf Hs.
@@ -130,7 +130,7 @@ Qed.
 
 Theorem roundtrip_full_l : forall tbl e rest,
   table_total tbl = true -> wf e = true -> folb tbl 0 rest = true ->
-  safeb false (pr tbl 0 (full e) ++ rest) = true ->
+  safeb (pr tbl 0 (full e) ++ rest) = true ->
   exists fuel, p_assign tbl fuel (pr tbl 0 (full e) ++ rest) = Ok (strip e, rest).
 Proof.
   intros tbl e rest Ht Hw Hf Hs.
@@ -142,7 +142,7 @@ Qed.
 Theorem redundant_parens_l : forall tbl e e' rest,
   table_total tbl = true -> wf e = true -> wf e' = true -> strip e = strip e' ->
   folb tbl 0 rest = true ->
-  safeb false (pr tbl 0 e ++ rest) = true -> safeb false (pr tbl 0 e' ++ rest) = true ->
+  safeb (pr tbl 0 e ++ rest) = true -> safeb (pr tbl 0 e' ++ rest) = true ->
   exists fuel, p_assign tbl fuel (pr tbl 0 e ++ rest) = Ok (strip e, rest) /\
                p_assign tbl fuel (pr tbl 0 e' ++ rest) = Ok (strip e, rest).
 Proof.
@@ -188,7 +188,7 @@ Proof. apply eval_fn_strip. Qed.
 Theorem parens_irrelevant_eval_l : forall tbl e e' rest env f f' x x' r r',
   table_total tbl = true -> wf e = true -> wf e' = true -> strip e = strip e' ->
   folb tbl 0 rest = true ->
-  safeb false (pr tbl 0 e ++ rest) = true -> safeb false (pr tbl 0 e' ++ rest) = true ->
+  safeb (pr tbl 0 e ++ rest) = true -> safeb (pr tbl 0 e' ++ rest) = true ->
   p_assign tbl f (pr tbl 0 e ++ rest) = Ok (x, r) -> p_assign tbl f' (pr tbl 0 e' ++ rest) = Ok (x', r') ->
   x = x' /\ r = r' /\ eval env x = eval env e /\ eval env x' = eval env e.
 Proof.
@@ -209,37 +209,65 @@ Fixpoint nolp (ts : list tok) : bool :=
 Lemma nolp_scan ts : nolp ts = true -> forall d, generic_scan d ts = false.
 Proof.
   induction ts as [|t r IH]; intros H d; [reflexivity|].
-  destruct t; cbn [nolp] in H; try discriminate H; cbn [generic_scan]; try (apply IH; exact H).
-  destruct o; try (apply IH; exact H).
-  destruct d as [|[|d]]; try (apply IH; exact H);
-    (destruct r as [|t' r']; [reflexivity|]; destruct t'; try reflexivity; discriminate H).
+  destruct t; cbn [nolp] in H; try discriminate H; cbn [generic_scan]; try reflexivity; try (apply IH; exact H).
+  - destruct o; try reflexivity; try (apply IH; exact H).
+    destruct d as [|[|d]]; try (apply IH; exact H);
+      (destruct r as [|t' r']; [reflexivity|]; destruct t'; try reflexivity; discriminate H).
+  - destruct o; try reflexivity; apply IH; exact H.
 Qed.
 
-Lemma nolp_safe ts : nolp ts = true -> forall p, safeb p ts = true.
+Lemma nolp_safe ts : nolp ts = true -> safeb ts = true.
 Proof.
-  induction ts as [|t r IH]; intros H p; [reflexivity|].
+  induction ts as [|t r IH]; intros H; [reflexivity|].
   destruct t; cbn [nolp] in H; try discriminate H; cbn [safeb]; rewrite (IH H); try reflexivity.
   destruct r as [|t' r']; [reflexivity|]. destruct t'; try reflexivity.
   destruct o; try reflexivity. cbn [nolp] in H. rewrite (nolp_scan r' H). reflexivity.
 Qed.
 
-(* the generator's avoidance for the generic look-ahead: no `>` directly before `(` *)
+(* the generator's syntactic sufficient condition for the generic look-ahead: no `>` directly before `(` *)
 Lemma no_gt_lp_scan ts : forall d, generic_scan d ts = true -> no_gt_lp ts = false.
 Proof.
   induction ts as [|t r IH]; intros d H; [discriminate H|].
   assert (Hdef : no_gt_lp r = false -> no_gt_lp (t :: r) = false).
   { intros E. cbn [no_gt_lp]. destruct t; try exact E. destruct o; try exact E.
     destruct r as [|t' r']; [exact E|]. destruct t'; try exact E. reflexivity. }
-  destruct t; cbn [generic_scan] in H; try (apply Hdef; eapply IH; exact H).
-  destruct o; try (apply Hdef; eapply IH; exact H).
-  destruct d as [|[|d]]; try (apply Hdef; eapply IH; exact H);
-    (destruct r as [|t' r']; [discriminate H|]; destruct t'; try discriminate H; reflexivity).
+  destruct t; cbn [generic_scan] in H; try discriminate H; try (apply Hdef; eapply IH; exact H).
+  - destruct o; try discriminate H; try (apply Hdef; eapply IH; exact H).
+    destruct d as [|[|d]]; try (apply Hdef; eapply IH; exact H);
+      (destruct r as [|t' r']; [discriminate H|]; destruct t'; try discriminate H; reflexivity).
+  - destruct o; try discriminate H; apply Hdef; eapply IH; exact H.
 Qed.
 
 Theorem no_gt_lp_generic_safe_l : forall ts, no_gt_lp ts = true -> forall d, generic_scan d ts = false.
 Proof.
   intros ts H d. destruct (generic_scan d ts) eqn:E; [|reflexivity].
   rewrite (no_gt_lp_scan ts d E) in H. discriminate H.
+Qed.
+
+Lemma no_gt_lp_tail t r : no_gt_lp (t :: r) = true -> no_gt_lp r = true.
+Proof.
+  cbn [no_gt_lp]. destruct t; auto. destruct o; auto. destruct r as [|t' r']; auto. destruct t'; auto. discriminate.
+Qed.
+
+(* ... and then the whole stream is safe *)
+Theorem no_gt_lp_safe_l : forall ts, no_gt_lp ts = true -> safeb ts = true.
+Proof.
+  induction ts as [|t r IH]; intros H; [reflexivity|].
+  pose proof (no_gt_lp_tail t r H) as Hr. cbn [safeb]. rewrite (IH Hr), andb_true_r.
+  destruct t; try reflexivity. destruct r as [|t' r']; [reflexivity|]. destruct t'; try reflexivity.
+  destruct o; try reflexivity.
+  rewrite (no_gt_lp_generic_safe_l r' (no_gt_lp_tail _ _ Hr)). reflexivity.
+Qed.
+
+(* the same with the purely syntactic side condition: no `>` directly before `(` in either text *)
+Theorem redundant_parens_syntactic_l : forall tbl e e' rest,
+  table_total tbl = true -> wf e = true -> wf e' = true -> strip e = strip e' ->
+  folb tbl 0 rest = true ->
+  no_gt_lp (pr tbl 0 e ++ rest) = true -> no_gt_lp (pr tbl 0 e' ++ rest) = true ->
+  exists fuel, p_assign tbl fuel (pr tbl 0 e ++ rest) = Ok (strip e, rest) /\
+               p_assign tbl fuel (pr tbl 0 e' ++ rest) = Ok (strip e, rest).
+Proof.
+  intros. apply redundant_parens_l; auto using no_gt_lp_safe_l.
 Qed.
 
 (* ------------------------------------------------------------------ associativity and precedence,
